@@ -262,6 +262,17 @@ func (c *Ctx) specCall(name string, e *ast.CallExpr) (Value, bool) {
 		// this path.  Assumed (at a call site): v differs from every reference the caller's state held
 		// before the call.
 		v := c.eval(e.Args[0])
+		if v.Kind == KSlice {
+			// fresh(s) for a slice: the backing store was allocated by this function (make, append to nil, a clone, the
+			// bytes of a buffer declared in the body) - nobody else holds it.  Assumed at a call site: nothing to add.
+			if c.assuming {
+				return Scalar(True, boolT), true
+			}
+			if v.Own {
+				return Scalar(True, boolT), true
+			}
+			return Scalar(False, boolT), true
+		}
 		if v.Kind != KScalar || v.S.Sort != SRef {
 			panic(engineErr("fresh(v): v is not a reference"))
 		}
